@@ -39,7 +39,7 @@ void x_vf_rec_send(uint8_t *msg, uint32_t destroy, uint32_t custom, uint32_t noi
 uint32_t x_vf_deliver(uint32_t seq, uint8_t *m) { n_deliver++; deliver_seq = seq; return 1; }
 uint32_t x_vf_is_admin(uint8_t *m) { return m_is_admin; }
 uint32_t x_vf_authenticate(void) { return m_auth; }
-void x_vf_msg_deleted(uint8_t *m) { n_deleted++; }
+void st_msg_delete(void *m) { n_deleted++; if (m != m_msg) out_bad = 1; }
 /* cut points */
 void *st_factory(void *ctx, void *from, uint8_t nochk, uint8_t permissive)
 {
